@@ -1577,6 +1577,11 @@ def _path_histories(ctx, mdl, PathC):
                  ('start:setter', ('PT',)), ('end:setter', ('PT',))]
     if ctx.tier != 'thorough':
         mutations = mutations[:1] + mutations[2:4] + mutations[5:]
+    # MutableSequence mixins the class overrides itself are mutators of their own (they need not go through insert / __setitem__)
+    own = getattr(PathC, 'own_methods', PathC.methods)
+    for nm_, args_ in (('extend', (['NEW'],)), ('append', ('NEW',)), ('__iadd__', (['NEW'],)), ('pop', ()), ('reverse', ()), ('remove', ('SEG0',)), ('clear', ())):
+        if nm_ in own:
+            mutations.append((nm_, args_))
     lens = {}
 
     def seg_len(it, a, k):
@@ -1615,7 +1620,7 @@ def _path_histories(ctx, mdl, PathC):
                     return it.call_method(q, oname, *oargs)
 
                 observe(p)
-                a = [new if x == 'NEW' else (Rat.csym('PT') if x == 'PT' else x) for x in margs]
+                a = [new if x == 'NEW' else ([new] if x == ['NEW'] else (segs[0] if x == 'SEG0' else (Rat.csym('PT') if x == 'PT' else x))) for x in margs]
                 if mname.endswith(':setter'):
                     f = PathC.setters[mname.split(':')[0]]
                     it.call_closure(Closure(f, f.node, None, f.module, p, PathC), a, {})
@@ -1653,7 +1658,7 @@ def _path_histories(ctx, mdl, PathC):
                     except PyRaise as e:        # e.g. isclosed() asserts continuity: the refusal is the answer compared
                         return ('raises', e.exc_name)
                 first = ask(p)
-                a = [new if x == 'NEW' else (Rat.const(complex(9, -9)) if x == 'PT' else x) for x in margs]
+                a = [new if x == 'NEW' else ([new] if x == ['NEW'] else (segs[0] if x == 'SEG0' else (Rat.const(complex(9, -9)) if x == 'PT' else x))) for x in margs]
                 if mname.endswith(':setter'):
                     f = PathC.setters[mname.split(':')[0]]
                     it.call_closure(Closure(f, f.node, None, f.module, p, PathC), a, {})
